@@ -207,7 +207,7 @@ theorem orderOk_default_refl (op : Op) (a : List Cid) (hop : ∀ a b, orderOk op
 /-- A call that neither touches the table nor talks to the hub about it. -/
 theorem facts_silent {s s' : State} {op : Op} (hnd : (cids s.comps).Nodup) (hc : s'.comps = s.comps) (hs : s'.shape = s.shape)
     (hl : ∀ c ∈ cids s.comps, s'.label c = s.label c) (hd : s'.dlabel = s.dlabel)
-    (hk : s'.linked = s.linked) (hh : s'.hub = s.hub ∨ op.isHubOp = true)
+    (hk : s'.linked = s.linked ∨ s'.inDc = true) (hh : s'.hub = s.hub ∨ op.isHubOp = true)
     (hord : orderOk op (cids s.comps) (cids s.comps) = true) : Facts s s' op [] := by
   refine ⟨hh, fun _ => rfl, fun _ => by rw [hc]; rfl, by rw [hc]; exact hord, ?_, ?_, ?_, ?_, ?_, ?_, ?_, ?_⟩
   · intro x' hx' x hx hxc _
@@ -223,6 +223,327 @@ theorem facts_silent {s s' : State} {op : Op} (hnd : (cids s.comps).Nodup) (hc :
     exact ⟨rfl, by rw [hs], rfl⟩
   · right; intro m hm; cases hm
   · intro _ _ he; cases he
-  · intro _ _ hl'; exact absurd hk.symm hl'
+  · intro _ hdc hl'
+    rcases hk with hk | hk
+    · exact absurd hk.symm hl'
+    · rw [hk] at hdc; cases hdc
+
+/-! ## add_component -/
+
+theorem eff_fresh {old : Cid → Prop} (s : State) (l : Label) (hb : ∀ c, old c → c < s.next) :
+    Eff old s (fresh s l).1 [] ∧ Keep old s (fresh s l).1 := by
+  refine ⟨Eff.silent rfl rfl ?_ rfl rfl rfl, Keep.of_eq rfl⟩
+  intro c hc
+  have := hb c hc
+  simp only [State.label, fresh, List.lookup_cons]
+  have : (c == s.next) = false := by simpa using (by omega : c ≠ s.next)
+  simp [this]
+
+theorem W_fresh {s : State} (hW : W s) (l : Label) : W (fresh s l).1 :=
+  ⟨hW.nodup, fun c hc => Nat.lt_succ_of_lt (hW.fresh c hc)⟩
+
+/-- Storing a component under an identifier that is not in the table and not `old`. -/
+theorem eff_addRaw {old : Cid → Prop} {s : State} (c : Comp) (hnew : c.cid ∉ cids s.comps) (hno : ¬ old c.cid) :
+    Eff old s (addRaw s c).1 (addRaw s c).2 ∧ Keep old s (addRaw s c).1 := by
+  have hcids : cids (addRaw s c).1.comps = cids s.comps ++ [c.cid] := by
+    simp [addRaw, insertComp_fresh hnew, cids]
+  have hpres : (cids s.comps).contains c.cid = false := by simpa using hnew
+  refine ⟨⟨?_, ?_, ?_, rfl, fun _ _ => rfl, rfl, rfl, rfl, ⟨fun _ => true, [c.cid], by simp [hcids], by simpa using hno⟩⟩, ?_⟩
+  · intro hh
+    rw [hcids]
+    simp only [addRaw, hh, hpres, Bool.not_false, Bool.and_self, if_true]
+    have := rep_adds [c.cid] (cids s.comps) (by simp) (by simpa using hnew)
+    simpa using this
+  · intro hh; simp [addRaw, hh]
+  · intro m hm
+    simp only [addRaw] at hm
+    split at hm
+    · simp only [List.mem_cons, List.mem_nil_iff, or_false] at hm
+      rcases hm with rfl | rfl <;> rfl
+    · cases hm
+  · intro x hx ho
+    simp only [addRaw, insertComp_fresh hnew, List.mem_append, List.mem_singleton] at hx
+    rcases hx with hx | rfl
+    · exact hx
+    · exact absurd ho hno
+
+theorem W_addRaw {s : State} (hW : W s) (c : Comp) (hnew : c.cid ∉ cids s.comps) (hlt : c.cid < s.next) :
+    W (addRaw s c).1 := by
+  have hcids : cids (addRaw s c).1.comps = cids s.comps ++ [c.cid] := by
+    simp [addRaw, insertComp_fresh hnew, cids]
+  refine ⟨?_, ?_⟩
+  · rw [hcids, List.nodup_append]
+    exact ⟨hW.nodup, by simp, fun a ha b hb hab => by simp at hb; subst hab hb; exact hnew ha⟩
+  · intro x hx
+    rw [hcids] at hx
+    rcases List.mem_append.1 hx with hx | hx
+    · exact hW.fresh x hx
+    · simp at hx; subst hx; exact hlt
+
+theorem eff_createPixelWorld {old : Cid → Prop} {s : State} (hW : W s) (hb : ∀ c, old c → c < s.next) (n : Nat) :
+    Eff old s (createPixelWorld s n).1 (createPixelWorld s n).2 ∧ Keep old s (createPixelWorld s n).1 ∧
+    W (createPixelWorld s n).1 ∧ s.next ≤ (createPixelWorld s n).1.next := by
+  simp only [createPixelWorld, Res.bind]
+  obtain ⟨e1, w1⟩ := eff_newPixels (old := old) hW hb n
+  have k1 : Keep old s (newPixels s n).1 := keep_family hb .pixel n rfl
+  have n1 : (newPixels s n).1.next = s.next + n := rfl
+  generalize (newPixels s n) = r1 at e1 w1 k1 n1
+  have hb1 : ∀ c, old c → c < r1.1.next := fun c hc => by have := hb c hc; omega
+  obtain ⟨e2, w2, n2⟩ := eff_updateWorld (old := old) w1 hb1 n
+  exact ⟨e1.trans e2, k1.trans (keep_updateWorld hb1 n), w2, by omega⟩
+
+/-- `add_component(array, id)` after the shape check, for an id that is neither in the table nor
+`old`. -/
+theorem eff_addMain {old : Cid → Prop} {s : State} (hW : W s) (hb : ∀ c, old c → c < s.next) (c : Cid)
+    (hnew : c ∉ cids s.comps) (hlt : c < s.next) (hno : ¬ old c) (shape : Shape) (val : Nat) :
+    Eff old s (addMain s c shape val).1 (addMain s c shape val).2 ∧ Keep old s (addMain s c shape val).1 := by
+  simp only [addMain, Res.bind]
+  split
+  · rename_i he
+    obtain ⟨e1, k1, w1, n1⟩ := eff_createPixelWorld (old := old) hW hb shape.length
+    have hnew1 : c ∉ cids (createPixelWorld s shape.length).1.comps := by
+      obtain ⟨_, kc, _, _⟩ := eff_createPixelWorld (old := fun x => x = c) hW (fun x hx => hx ▸ hlt) shape.length
+      intro hm
+      obtain ⟨y, hy, hyc⟩ := List.mem_map.1 hm
+      exact hnew (List.mem_map.2 ⟨y, kc y hy hyc, hyc⟩)
+    generalize (createPixelWorld s shape.length) = r1 at e1 k1 w1 n1 hnew1
+    obtain ⟨e2, k2⟩ := eff_addRaw (old := old) (s := r1.1) ⟨c, .main, shape, val⟩ hnew1 hno
+    exact ⟨e1.trans e2, k1.trans k2⟩
+  · obtain ⟨e, k⟩ := eff_addRaw (old := old) (s := s) ⟨c, .main, shape, val⟩ hnew hno
+    exact ⟨by simpa using (Eff.refl old s).trans e, k⟩
+
+
+theorem facts_addMain_fresh {s : State} (h : Inv s) (op : Op) (l : Label) (shape : Shape) (val : Nat)
+    (hcan : canAdd s shape = true)
+    (hop : ∀ a b, orderOk op a b = (b.filter a.contains == a.filter b.contains)) :
+    Facts s (addMain (fresh s l).1 (fresh s l).2 shape val).1 op (addMain (fresh s l).1 (fresh s l).2 shape val).2 := by
+  have hW := W_of_inv h
+  obtain ⟨a, _, _, d, _, _, _, hn, hcid, _⟩ := fresh_frame s l
+  have hb0 : ∀ c, (fun c => c < s.next) c → c < (fresh s l).1.next := fun c hc => by rw [hn]; exact Nat.lt_succ_of_lt hc
+  obtain ⟨e0, k0⟩ := eff_fresh (old := fun c => c < s.next) s l (fun _ hc => hc)
+  obtain ⟨e1, k1⟩ := eff_addMain (old := fun c => c < s.next) (W_fresh hW l) hb0 (fresh s l).2
+    (by rw [a, hcid]; exact fresh_not_mem h) (by rw [hn, hcid]; exact Nat.lt_succ_self _)
+    (by rw [hcid]; exact Nat.lt_irrefl _) shape val
+  have e := e0.trans e1
+  simp only [List.nil_append] at e
+  apply facts_of_eff h _ (fun c hc => h.fresh.1 c hc) e (k0.trans k1) _ hop
+  by_cases he : s.comps = []
+  · exact Or.inr he
+  · left
+    have hns := inv_shape_ne h he
+    rw [addMain_shape (inv_fresh h l) _ _ _ (by rw [d]; exact hns), d]
+
+theorem facts_addMain_at {s : State} (h : Inv s) (op : Op) (c : Cid) (hc : c < s.next) (hnew : c ∉ cids s.comps)
+    (shape : Shape) (val : Nat) (hop : ∀ a b, orderOk op a b = (b.filter a.contains == a.filter b.contains)) :
+    Facts s (addMain s c shape val).1 op (addMain s c shape val).2 := by
+  have hW := W_of_inv h
+  obtain ⟨e, k⟩ := eff_addMain (old := fun x => x < s.next ∧ x ≠ c) hW (fun _ hx => hx.1) c hnew hc
+    (fun hx => hx.2 rfl) shape val
+  apply facts_of_eff h _ (fun x hx => ⟨h.fresh.1 x hx, fun e => hnew (e ▸ hx)⟩) e k _ hop
+  by_cases he : s.comps = []
+  · exact Or.inr he
+  · left
+    exact addMain_shape h _ _ _ (inv_shape_ne h he)
+
+theorem facts_addRaw_fresh {s : State} (h : Inv s) (op : Op) (l : Label) (kind : Kind) (hne : s.comps ≠ [])
+    (hop : ∀ a b, orderOk op a b = (b.filter a.contains == a.filter b.contains)) :
+    Facts s (addRaw (fresh s l).1 ⟨(fresh s l).2, kind, [], 0⟩).1 op (addRaw (fresh s l).1 ⟨(fresh s l).2, kind, [], 0⟩).2 := by
+  obtain ⟨a, _, _, d, _, _, _, hn, hcid, _⟩ := fresh_frame s l
+  obtain ⟨e0, k0⟩ := eff_fresh (old := fun c => c < s.next) s l (fun _ hc => hc)
+  obtain ⟨e1, k1⟩ := eff_addRaw (old := fun c => c < s.next) (s := (fresh s l).1) ⟨(fresh s l).2, kind, [], 0⟩
+    (by simp only; rw [a, hcid]; exact fresh_not_mem h) (by simp only; rw [hcid]; exact Nat.lt_irrefl _)
+  have e := e0.trans e1
+  simp only [List.nil_append] at e
+  apply facts_of_eff h _ (fun c hc => h.fresh.1 c hc) e (k0.trans k1) _ hop
+  left
+  rw [addRaw_shape _ (by rw [d]; exact inv_shape_ne h hne), d]
+
+theorem removeComp_eq_removeAll (s : State) (c : Cid) : removeComp s c = removeAll s [c] := by
+  simp [removeAll, Res.bind]
+
+theorem facts_remove {s : State} (h : Inv s) (c : Cid) : Facts s (removeComp s c).1 (.remove c) (removeComp s c).2 := by
+  rw [removeComp_eq_removeAll]
+  obtain ⟨e, _, _⟩ := eff_removeAll (old := fun c => c < s.next) (W_of_inv h) [c]
+  exact facts_of_eff h _ (fun c hc => h.fresh.1 c hc) e (keep_removeAll _ s [c])
+    (Or.inl (frame_removeAll s [c]).1.shape) (fun _ _ => rfl)
+
+theorem facts_setCoords {s : State} (h : Inv s) (v : Option Nat) :
+    Facts s (setCoords s v).1 (.setCoords v) (setCoords s v).2 := by
+  obtain ⟨e, _, _⟩ := eff_setCoords (old := fun c => c < s.next) (W_of_inv h) (fun _ hc => hc) v
+  exact facts_of_eff h _ (fun c hc => h.fresh.1 c hc) e (keep_setCoords (fun _ hc => hc) v)
+    (Or.inl (frame_setCoords s v).1.shape) (fun _ _ => rfl)
+
+
+/-! ## the calls that are one step -/
+
+/-- One message that is not about the identifier list, the table and everything else unchanged
+except what `hl` / `hd` / `hk` allow. -/
+theorem facts_single {s s' : State} {op : Op} (m : Msg) (hm : Msg.isStructural m = false)
+    (hnd : (cids s.comps).Nodup) (hc : cids s'.comps = cids s.comps) (hh : s'.hub = s.hub)
+    (hord : orderOk op (cids s.comps) (cids s.comps) = true)
+    (hlab : ∀ x' ∈ s'.comps, s'.hub = true →
+      ((s.label x'.cid != s'.label x'.cid) = [m].contains (.rename x'.cid)))
+    (hren : ∀ c, m = .rename c → c ∈ cids s.comps)
+    (hdl : s'.hub = true → ((s.dlabel != s'.dlabel) = [m].contains .update))
+    (hval : ∀ x' ∈ s'.comps, ∀ x ∈ s.comps, x.cid = x'.cid → s'.hub = true →
+      (x.kind = x'.kind ∧ compShape s.shape x = compShape s'.shape x' ∧ oval x = oval x') ∨
+      numericalCovers [m] x'.cid = true)
+    (hnum : op.isValueUpdate = true ∨ ∀ cs, m ≠ .numerical cs)
+    (hext1 : m = .ext → s.linked ≠ s'.linked ∨ op.isLinkOp = true)
+    (hext2 : s'.hub = true → s.linked ≠ s'.linked → m = .ext) :
+    Facts s s' op (if s.hub then [m] else []) := by
+  cases hhub : s.hub
+  · have hh' : s'.hub = false := hh.trans hhub
+    have nohub : s'.hub = true → False := fun h => by rw [hh'] at h; cases h
+    simp only [Bool.false_eq_true, if_false]
+    refine ⟨Or.inl hh, fun _ => rfl, fun h => (nohub h).elim, ?_, ?_, fun _ _ _ => rfl, ?_,
+      fun h => (nohub h).elim, ?_, Or.inr ?_, fun h => (nohub h).elim, fun h => (nohub h).elim⟩
+    · rw [hc]; exact hord
+    · intro _ _ _ _ _ h; exact (nohub h).elim
+    · intro c hc'; cases hc'
+    · intro _ _ _ _ _ h; exact (nohub h).elim
+    · intro m hm; cases hm
+  · have hh' : s'.hub = true := hh.trans hhub
+    have nohub : s'.hub = false → False := fun h => by rw [hh'] at h; cases h
+    simp only [if_true]
+    refine ⟨Or.inl hh, fun h => (nohub h).elim, ?_, ?_, ?_, ?_, ?_, hdl, hval, ?_, ?_, ?_⟩
+    · intro _
+      rw [hc]
+      cases m <;> simp [Msg.isStructural] at hm <;> simp [replay]
+    · rw [hc]; exact hord
+    · intro x' hx' _ _ _ h; exact hlab x' hx' h
+    · intro x' hx' hn
+      exfalso
+      apply hn
+      rw [← hc]; exact List.mem_map.2 ⟨x', hx', rfl⟩
+    · intro c hc'
+      simp only [List.mem_singleton] at hc'
+      rw [hc]; exact hren c hc'.symm
+    · rcases hnum with h | h
+      · exact Or.inl h
+      · right
+        intro m' hm' cs hcs
+        simp only [List.mem_singleton] at hm'
+        subst hm'
+        exact h cs hcs
+    · intro _ _ he
+      simp only [List.mem_singleton] at he
+      exact hext1 he.symm
+    · intro h _ hl
+      simp only [List.mem_singleton]
+      exact (hext2 h hl).symm
+
+theorem label_cons_ne (s : State) (c c' : Cid) (l : Label) (h : c' ≠ c) :
+    State.label { s with labels := (c, l) :: s.labels } c' = s.label c' := by
+  simp only [State.label, List.lookup_cons]
+  have : (c' == c) = false := by simpa using h
+  simp [this]
+
+theorem label_cons_eq (s : State) (c : Cid) (l : Label) :
+    State.label { s with labels := (c, l) :: s.labels } c = l := by
+  simp [State.label, List.lookup_cons]
+
+theorem facts_rename {s : State} (h : Inv s) (c : Cid) (l : Label) (hc : c ∈ cids s.comps) :
+    Facts s (step s (.rename c l)).state (.rename c l) (step s (.rename c l)).msgs := by
+  simp only [step]
+  split
+  · exact facts_silent h.nodup rfl rfl (fun _ _ => rfl) rfl (Or.inl rfl) (Or.inl rfl) (by simp [orderOk])
+  · rename_i hne
+    have hne' : s.label c ≠ l := by simpa using hne
+    simp only [ok]
+    have hcc : (cids s.comps).contains c = true := by simpa using hc
+    simp only [hcc, Bool.true_and]
+    apply facts_single (s' := { s with labels := (c, l) :: s.labels }) (op := .rename c l) (.rename c) rfl h.nodup rfl rfl
+      (by simp [orderOk])
+    · intro x' _ _
+      by_cases hx : x'.cid = c
+      · rw [hx, label_cons_eq]
+        simp [hne']
+      · rw [label_cons_ne _ _ _ _ hx]
+        simp [hx]
+    · intro c' hc'; cases hc'; exact hc
+    · intro _; simp
+    · intro x' hx' x hx hxc _
+      left
+      have : x = x' := cid_inj h.nodup hx hx' hxc
+      subst this; exact ⟨rfl, rfl, rfl⟩
+    · right; intro cs hcs; cases hcs
+    · intro he; cases he
+    · intro _ hl; exact absurd rfl hl
+
+theorem facts_setLabel {s : State} (h : Inv s) (l : Label) :
+    Facts s (setLabelImpl s l).1 (.setLabel l) (setLabelImpl s l).2 := by
+  simp only [setLabelImpl]
+  split
+  · rename_i hne
+    have hne' : s.dlabel ≠ l := by simpa using hne
+    apply facts_single (s' := { s with dlabel := l }) (op := .setLabel l) .update rfl h.nodup rfl rfl (by simp [orderOk])
+    · intro _ _ _; simp [State.label]
+    · intro c hc; cases hc
+    · intro _; simp [hne']
+    · intro x' hx' x hx hxc _
+      left
+      have : x = x' := cid_inj h.nodup hx hx' hxc
+      subst this; exact ⟨rfl, rfl, rfl⟩
+    · right; intro cs hcs; cases hcs
+    · intro he; cases he
+    · intro _ hl; exact absurd rfl hl
+  · exact facts_silent h.nodup rfl rfl (fun _ _ => rfl) rfl (Or.inl rfl) (Or.inl rfl) (by simp [orderOk])
+
+theorem facts_setLinked {s : State} (h : Inv s) (cs : List Cid) :
+    Facts s (step s (.setLinked cs)).state (.setLinked cs) (step s (.setLinked cs)).msgs := by
+  simp only [step]
+  split
+  · exact facts_silent h.nodup rfl rfl (fun _ _ => rfl) rfl (Or.inl rfl) (Or.inl rfl) (by simp [orderOk])
+  · simp only [ok]
+    apply facts_single (s' := { s with linked := cs }) (op := .setLinked cs) .ext rfl h.nodup rfl rfl (by simp [orderOk])
+    · intro _ _ _; simp [State.label]
+    · intro c hc; cases hc
+    · intro _; simp
+    · intro x' hx' x hx hxc _
+      left
+      have : x = x' := cid_inj h.nodup hx hx' hxc
+      subst this; exact ⟨rfl, rfl, rfl⟩
+    · right; intro cs hcs; cases hcs
+    · intro _; exact Or.inr rfl
+    · intro _ _; rfl
+
+theorem facts_updateComponents {s : State} (h : Inv s) (m : List (Cid × Shape × Nat))
+    (hchk : updateCheck s m = none) :
+    Facts s { s with comps := applyUpdates s.comps m } (.updateComponents m)
+      (if s.hub then [.numerical (some (m.map (·.1)))] else []) := by
+  have hf : ∀ c : Comp, ((fun x : Comp => match m.lookup x.cid with
+      | some (sh, v) => if x.kind.isMain then { x with shape := sh, val := v } else x
+      | none => x) c).cid = c.cid := by
+    intro c; simp only; split
+    · split <;> rfl
+    · rfl
+  have hcids : cids (applyUpdates s.comps m) = cids s.comps := by
+    simp only [applyUpdates, cids, List.map_map]
+    apply List.map_congr_left
+    intro c _
+    exact hf c
+  apply facts_single (s' := { s with comps := applyUpdates s.comps m }) (op := .updateComponents m)
+    (.numerical (some (m.map (·.1)))) rfl h.nodup hcids rfl (by simp [orderOk])
+  · intro _ _ _; simp [State.label]
+  · intro c hc; cases hc
+  · intro _; simp
+  · intro x' hx' x hx hxc _
+    simp only [applyUpdates, List.mem_map] at hx'
+    obtain ⟨x0, hx0, rfl⟩ := hx'
+    have hxc' : x.cid = x0.cid := by rw [hxc]; exact hf x0
+    have : x = x0 := cid_inj h.nodup hx hx0 hxc'
+    subst this
+    cases hl : m.lookup x.cid with
+    | none => left; simp [hl]
+    | some p =>
+      right
+      have hmem : (x.cid, p) ∈ m := mem_of_lookup hl
+      simp only [numericalCovers, List.any_cons, List.any_nil, Bool.or_false, List.contains_eq_mem,
+        decide_eq_true_eq, List.mem_map]
+      exact ⟨(x.cid, p), hmem, by simp only; split <;> rfl⟩
+  · exact Or.inl rfl
+  · intro he; cases he
+  · intro _ hl; exact absurd rfl hl
 
 end GlueVerif.Lemmas.C17
